@@ -4,6 +4,7 @@ import (
 	"encoding/json"
 	"fmt"
 	"math/rand"
+	"os"
 	"sort"
 	"strconv"
 	"strings"
@@ -966,17 +967,22 @@ func checkC09(c *Ctx) {
 	if c.Thorough() {
 		depth = 4
 	}
-	c09RunMC(c, pool, "depth", c09Cfg("depth", depth, false), nil, stats)
-	c09RunMC(c, pool, "breadth", c09Cfg("breadth", 1, c.Thorough()), nil, stats)
+	only := os.Getenv("C09_FAMILY") // development: run one family only ("given")
+	if only == "" {
+		c09RunMC(c, pool, "depth", c09Cfg("depth", depth, false), nil, stats)
+		c09RunMC(c, pool, "breadth", c09Cfg("breadth", 1, c.Thorough()), nil, stats)
+	}
 	simN, simD := 2000, 8
 	if c.Thorough() {
 		simN, simD = 30000, 10
 	}
 	c09RunMC(c, pool, "given", c09Cfg("given", simD, false), map[string]string{"given.json": c09RandomHistories(c.Seed, simN, simD)}, stats)
-	c09ReadFamily(c, pool)
+	if only == "" {
+		c09ReadFamily(c, pool)
+	}
 
 	for _, t := range c09MustTags {
-		if stats.tags[t] == 0 {
+		if stats.tags[t] == 0 && only == "" {
 			infra("C09: vacuity guard: nothing exercised %q (model or alphabet changed?)", t)
 		}
 	}
